@@ -255,6 +255,7 @@ func (m *C05Monitor) AfterTx(c *Chain, ctx sdk.Context, tx sdk.Tx, ok bool) {
 	evidence := "n/a"
 	var origins []string
 	nOrigins, offPar := 0, false // origins of the new records; does one of their validators have a share price other than 1?
+	negEntries := 0              // origins recorded with a negative amount
 	for k := range esc {
 		if !m.escrow[k] {
 			v, err := c.App.ReporterKeeper.DisputedDelegationAmounts.Get(ctx, []byte(k))
@@ -270,6 +271,9 @@ func (m *C05Monitor) AfterTx(c *Chain, ctx sdk.Context, tx sdk.Tx, ok bool) {
 				for _, o := range v.TokenOrigins {
 					origins = append(origins, fmt.Sprintf("%s@%s:%s", sdk.AccAddress(o.DelegatorAddress), sdk.ValAddress(o.ValidatorAddress), o.Amount))
 					nOrigins++
+					if o.Amount.IsNegative() {
+						negEntries++
+					}
 					if val, err := c.App.StakingKeeper.GetValidator(ctx, sdk.ValAddress(o.ValidatorAddress)); err == nil && !val.DelegatorShares.Equal(math.LegacyNewDecFromInt(val.Tokens)) {
 						offPar = true
 					}
@@ -321,6 +325,10 @@ func (m *C05Monitor) AfterTx(c *Chain, ctx sdk.Context, tx sdk.Tx, ok bool) {
 			class := ""
 			if d := recTotal - fromStake; newRec && offPar && d > 0 && d <= int64(nOrigins) {
 				class = ":within-share-price-truncation"
+			} else if newRec && negEntries > 0 && d < 0 && -d <= int64(nOrigins) {
+				// the proportional split rounds every backer's share to the nearest unit and gives what is left to the last
+				// entry: when the rounded shares already exceed the amount that entry is recorded with a negative amount
+				class = ":negative-leftover-entry"
 			}
 			c.Violate("C05", "c05", "escrow-record-vs-moved:evidence="+evidence+":stake-still-available="+avail+class, map[string]interface{}{"recorded": recTotal, "left_pools": fromStake, "msg": name, "origins": origins})
 		}
